@@ -80,7 +80,10 @@ example := dtft_geometric_delayed_on_circle (1 / 2 : ℂ) Complex.I 3 (by simp) 
 
 example := seq_zt_partial ([1, 2, 3] : List ℚ) 5 (by norm_num)
 example := seq_zt_origin ([1, 2, 3] : List ℚ) (-1) 5 (by norm_num)
-example := seq_izt_zt ([1, 2, 3] : List ℚ) 5 (by norm_num)
+example := seq_izt_zt_position_partial ([1, 2, 3] : List ℚ) 5 (by norm_num)
+example := Lcapy.C13.seq_izt_zt_origin ([1, 2, 3] : List ℚ) (-1) 5 (by norm_num)
+example := seq_izt_zt_executed ([1, 2, 3] : List ℚ) (-1) 5 (by norm_num)
+example := response_ic_indexing ([1, 3] : List ℚ) [2, 1, 4] (fun i => (i : ℚ) + 1) [3, 7] 1 (by simp)
 example := seq_dft_is_sum ([1, 2, 3] : List ℚ) (-1) (-1) (by norm_num)
 example := seq_convolve_poly ([1, 2, 3] : List ℚ) [4, 5] (by simp) (by simp) 7
 example := seq_convolve_assoc ([1, 2, 3] : List ℚ) [4, 5] [6, 7, 8] (by simp) (by simp) (by simp)
